@@ -274,6 +274,18 @@ func (x *otrans) typeAssert(s *ast.AssignStmt, ta *ast.TypeAssertExpr, en oenv, 
 	if pi.Kind != "sum" {
 		fail("type assertion on %s", p.typ)
 	}
+	if ctors, ok := x.u.SubSums[to]; ok {
+		// `_, ok := x.(J)`: is the dynamic type one of the listed implementations of J?
+		if len(s.Lhs) != 2 || !isIdent(s.Lhs[0], "_") {
+			fail("type assertion to %s is supported as `_, ok := x.(%s)` only", to, to)
+		}
+		pats := ""
+		for _, c := range ctors {
+			pats += " | ." + c + " _"
+		}
+		text, en2 := x.assignTo(s.Lhs[1], s.Tok == token.DEFINE, oval{lean: "(match " + p.lean + " with" + pats + " => true | _ => false)", typ: "bool"}, nil, en)
+		return x.withGuards(g0, fc, text+next(en2))
+	}
 	ti := x.ti(to)
 	if ti.Kind == "sum" && len(s.Lhs) == 2 && ti.Sum == pi.Sum {
 		// `v, ok := s.(I)` inside one closed world: ok = (s != nil), v = s
@@ -497,6 +509,16 @@ func (x *otrans) stmts(list []ast.Stmt, en oenv, fc *ofctx, k okont) string {
 				fail("unsupported declaration %s", norm(src(s)))
 			}
 			t := goTypeOf(vs.Type)
+			if x.isDropped(t) {
+				// `var knfe *KeyNotFoundError`: only ever the target of errors.As
+				if x.droppedLocals == nil {
+					x.droppedLocals = map[string]string{}
+				}
+				for _, n := range vs.Names {
+					x.droppedLocals[n.Name] = t
+				}
+				continue
+			}
 			ti := x.ti(t)
 			if ti.Zero == "" {
 				fail("`var _ %s`: no zero value known", t)
@@ -545,10 +567,74 @@ func (x *otrans) stmts(list []ast.Stmt, en oenv, fc *ofctx, k okont) string {
 	case *ast.RangeStmt:
 		return x.rangeStmt(s, en, fc, next)
 	case *ast.ForStmt:
+		if s.Init == nil && s.Post == nil && s.Cond != nil {
+			return x.forCondStmt(s, en, fc, next)
+		}
 		return x.forStmt(s, en, fc, next)
+	case *ast.SwitchStmt:
+		return x.stmts([]ast.Stmt{oSwitchToIf(s)}, en, fc, next)
+	case *ast.DeferStmt:
+		if id, ok := s.Call.Fun.(*ast.Ident); ok && x.u.SkipDefers[id.Name] {
+			// releases a pooled object when the function returns: no effect on any value
+			for _, a := range s.Call.Args {
+				x.dropArg(a, en)
+			}
+			return next(en)
+		}
+		fail("unsupported defer %s", norm(src(s)))
 	}
 	fail("unsupported statement %s", norm(src(s)))
 	return ""
+}
+
+// oSwitchToIf: a tag-less `switch { case c1: .. case c2: .. default: .. }` without `break` / `fallthrough` is an if-chain
+func oSwitchToIf(s *ast.SwitchStmt) ast.Stmt {
+	if s.Tag != nil || s.Init != nil {
+		fail("unsupported switch statement (only the tag-less form)")
+	}
+	var deflt *ast.CaseClause
+	var cases []*ast.CaseClause
+	for _, st := range s.Body.List {
+		cc := st.(*ast.CaseClause)
+		ast.Inspect(cc, func(n ast.Node) bool {
+			if b, ok := n.(*ast.BranchStmt); ok && (b.Tok == token.BREAK || b.Tok == token.FALLTHROUGH) {
+				fail("%s inside a switch", b.Tok)
+			}
+			return true
+		})
+		if cc.List == nil {
+			deflt = cc
+			continue
+		}
+		if len(cc.List) != 1 {
+			fail("switch case with %d expressions", len(cc.List))
+		}
+		cases = append(cases, cc)
+	}
+	if len(cases) == 0 {
+		fail("switch without cases")
+	}
+	var tail ast.Stmt
+	if deflt != nil {
+		tail = &ast.BlockStmt{List: deflt.Body}
+	}
+	for i := len(cases) - 1; i >= 0; i-- {
+		tail = &ast.IfStmt{Cond: cases[i].List[0], Body: &ast.BlockStmt{List: cases[i].Body}, Else: tail}
+	}
+	return tail
+}
+
+// oCanPanic: an index / slice expression inside e
+func oCanPanic(e ast.Expr) bool {
+	found := false
+	ast.Inspect(e, func(n ast.Node) bool {
+		switch n.(type) {
+		case *ast.IndexExpr, *ast.SliceExpr:
+			found = true
+		}
+		return true
+	})
+	return found
 }
 
 // clearArg: `clear(x)`, `clear(x[a:b])`, `clear(x[len(x):cap(x)])`
@@ -631,6 +717,17 @@ func sameEnvShape(a, b oenv) bool {
 }
 
 func (x *otrans) ifStmt(s *ast.IfStmt, en oenv, fc *ofctx, next okont) string {
+	if be, ok := s.Cond.(*ast.BinaryExpr); ok && (be.Op == token.LOR || be.Op == token.LAND) && oCanPanic(be.Y) && s.Init == nil {
+		// `if A || B {S} else {T}` with an index expression in B: B is evaluated (and can panic) only when A is false
+		var elseS ast.Stmt = s.Else
+		if be.Op == token.LOR {
+			inner := &ast.IfStmt{Cond: be.Y, Body: s.Body, Else: elseS}
+			return x.ifStmt(&ast.IfStmt{Cond: be.X, Body: s.Body, Else: inner}, en, fc, next)
+		}
+		inner := &ast.IfStmt{Cond: be.Y, Body: s.Body, Else: elseS}
+		outer := &ast.IfStmt{Cond: be.X, Body: &ast.BlockStmt{List: []ast.Stmt{inner}}, Else: elseS}
+		return x.ifStmt(outer, en, fc, next)
+	}
 	after := func(en2 oenv) string { return next(en2.popTo(en)) }
 	elseList := func() ([]ast.Stmt, bool) {
 		switch e := s.Else.(type) {
@@ -767,6 +864,7 @@ type oloop struct {
 	extraNil string
 	start    string // call arguments for the recursion argument(s)
 	recArgs  string // arguments of the recursive call for the recursion argument(s)
+	nilRet   string // value of the base case when it is not "the loop is over" (fuel loops)
 }
 
 // emitLoop: the shared part of every loop scheme
@@ -841,7 +939,11 @@ func (x *otrans) emitLoop(lp oloop, bodyOf func(lf *ofctx) string, en oenv, fc *
 		pats += ", " + c
 	}
 	def := fmt.Sprintf("/-- %s -/\ndef %s%s%s :\n    %s → %s\n", lp.doc, lp.name, envDecl, fdecl, sig, resT)
-	def += "  | " + lp.firstNil + lp.extraNil + pats + " => " + done + "\n"
+	if lp.nilRet != "" {
+		def += "  | " + lp.firstNil + lp.extraNil + pats + " => " + lp.nilRet + "\n"
+	} else {
+		def += "  | " + lp.firstNil + lp.extraNil + pats + " => " + done + "\n"
+	}
 	def += "  | " + lp.firstPat + lp.extraP + pats + " =>\n    " + indent(bodyText, 4) + "\n"
 	x.aux = append(x.aux, def)
 	call := callHead + " " + lp.start + cargs
@@ -944,6 +1046,38 @@ func (x *otrans) forStmt(s *ast.ForStmt, en oenv, fc *ofctx, next okont) string 
 		doc:      fmt.Sprintf("loop %d of `%s`: `for %s; %s; %s` (`n_` = iterations left, `%s = n_ - 1` in the step case)", n, x.t.Func, nodeOr(s.Init), nodeOr(s.Cond), nodeOr(s.Post), iv),
 		firstPat: "n_ + 1", firstNil: "0", firstT: "Nat",
 		start: "(" + paren(start) + " + 1).toNat", recArgs: "n_"}
+	text := x.emitLoop(lp, run, en, fc, next, carried)
+	return x.withGuards(g0, fc, text)
+}
+
+// forCondStmt: `for a < b { .. }` over ints (the binary searches): recursion on a fuel of `b - a` iterations, taken at loop
+// entry.  Running out of fuel is reported like a panic (`none`): the equivalence theorems show it never happens.
+func (x *otrans) forCondStmt(s *ast.ForStmt, en oenv, fc *ofctx, next okont) string {
+	cond, ok := s.Cond.(*ast.BinaryExpr)
+	if !ok || cond.Op != token.LSS || idName(cond.X) == "" || idName(cond.Y) == "" {
+		fail("unsupported for statement `for %s` (only `for a < b` over int variables)", nodeOr(s.Cond))
+	}
+	g0 := len(x.guards)
+	lo, hi := x.intExpr(cond.X, en), x.intExpr(cond.Y, en)
+	x.nloop++
+	n := x.nloop
+	lname := fmt.Sprintf("%s.loop%d", x.t.Lean, n)
+	body := en.push()
+	run := func(lf *ofctx) string {
+		c := x.coerce(x.expr(s.Cond, body, "bool"), "bool")
+		x.needPnc = true
+		return "if " + c.lean + " then\n  " + indent(x.stmts(s.Body.List, body, lf, func(en2 oenv) string { return lf.cont(en2) }), 2) + "\nelse\n  " + lf.brk(body)
+	}
+	carried := x.carriedVars(en, func() {
+		dummy := &ofctx{brk: func(oenv) string { return "" }, cont: func(oenv) string { return "" }, pnc: func() string { return "" }}
+		dummy.final = func(v string) string { return v }
+		dummy.ret = func(en2 oenv, rs []ast.Expr) string { return x.retCore(en2, rs, dummy) }
+		run(dummy)
+	})
+	lp := oloop{name: lname,
+		doc:      fmt.Sprintf("loop %d of `%s`: `for %s` (`n_` = fuel, %s - %s at loop entry; out of fuel = `none`)", n, x.t.Func, nodeOr(s.Cond), norm(src(cond.Y)), norm(src(cond.X))),
+		firstPat: "n_ + 1", firstNil: "0", firstT: "Nat",
+		start: "(" + paren(hi) + " - " + paren(lo) + " + 1).toNat", recArgs: "n_", nilRet: ".ret none"}
 	text := x.emitLoop(lp, run, en, fc, next, carried)
 	return x.withGuards(g0, fc, text)
 }
@@ -1295,6 +1429,13 @@ func oDispatch(u *oUnit, t *oTarget) string {
 		if v, ok := u.Types[strings.TrimSpace(p)]; ok && v.Kind == "drop" {
 			anames = append(anames, "")
 			continue
+		}
+		if ts := typeSpecs[strings.TrimSpace(p)]; ts != nil {
+			if _, isF := ts.Type.(*ast.FuncType); isF {
+				// a callback: called through env under the name of its type by every implementation
+				anames = append(anames, "")
+				continue
+			}
 		}
 		n := fmt.Sprintf("a%d_", i+1)
 		anames = append(anames, n)
